@@ -71,7 +71,7 @@ type stats struct {
 	ambiguous, latestChecked, metaDeleted, readd, elementEnc, keyed                                  bool
 	sawConnErr                                                                                       map[string]bool
 	maxBulk, maxDeleted                                                                              int
-	nearValue, directEntry, mixedEnc, extremeTS                                                      bool
+	nearValue, directEntry, mixedEnc, extremeTS, pathOrigin                                          bool
 	bigDeleteWithSurvivor                                                                            bool
 }
 
@@ -108,6 +108,7 @@ func (s *stats) labels() []string {
 	add(s.directEntry, "operation-through-the-per-target-entry-point")
 	add(s.mixedEnc, "prefix-and-paths-in-different-or-both-encodings")
 	add(s.extremeTS, "timestamp-from-the-edges-of-the-int64-range")
+	add(s.pathOrigin, "origin-carried-by-an-update-or-delete-path")
 	add(s.maxBulk > 32, "bulk-update>32")
 	add(s.maxBulk > 64, "bulk-update>64")
 	add(s.maxDeleted > 32, "one-delete-removed>32")
@@ -503,6 +504,8 @@ func (w *world) resolve(name string, spec *Noti) (origin string, prefix []gn.Ele
 	return "", toElems(leaf[:split]), toElems(leaf[split:]), true
 }
 
+var pathOriginSeen bool // (label only; set by pathOf, read and cleared by build)
+
 // pathOf builds an update/delete path in the encoding the spec asks for.
 func pathOf(spec *Noti, p []gn.Elem, spare int) *pb.Path {
 	element := spec.Element
@@ -512,7 +515,10 @@ func pathOf(spec *Noti, p []gn.Elem, spare int) *pb.Path {
 	case "element":
 		element = true
 	}
-	out := gn.Path("", "", p, element, spare)
+	out := gn.Path("", spec.PathOrigin, p, element, spare)
+	if spec.PathOrigin != "" {
+		pathOriginSeen = true
+	}
 	if spec.PathEnc == "both" && len(out.Elem) > 0 {
 		out.Element = []string{"stray", "x"}
 	}
@@ -543,6 +549,12 @@ func (w *world) build(name string, spec *Noti) *pb.Notification {
 	if spec.PathEnc != "" || spec.PrefixBoth {
 		w.st.mixedEnc = true
 	}
+	defer func() {
+		if pathOriginSeen {
+			w.st.pathOrigin = true
+			pathOriginSeen = false
+		}
+	}()
 	n := &pb.Notification{Prefix: prefix, Atomic: spec.Atomic}
 	for i, u := range spec.Updates {
 		p := u.Path
@@ -552,7 +564,7 @@ func (w *world) build(name string, spec *Noti) *pb.Notification {
 		up := pathOf(spec, p, 2)
 		if spec.Share {
 			// callers also reuse path objects between notifications
-			uk := fmt.Sprintf("path|%v|%v|%v", spec.Element, spec.PathEnc, gn.IndexOfElems(p, false))
+			uk := fmt.Sprintf("path|%v|%v|%v|%v", spec.Element, spec.PathEnc, spec.PathOrigin, gn.IndexOfElems(p, false))
 			for _, e := range p {
 				uk += fmt.Sprintf("|%v", e.Keys)
 			}
